@@ -1,5 +1,5 @@
 (** C11: a failed parse returns an error that locates the failure correctly. *)
-From PegV Require Import Base.Tac Spec.Syntax Spec.Peg Model.Machine Model.Runtime Model.Gen Proofs.Forest Proofs.RuntimeProofs Proofs.Top Properties.Example.
+From PegV Require Import Base.Tac Spec.Syntax Spec.Peg Model.Machine Model.Runtime Model.Gen Proofs.Forest Proofs.RuntimeProofs Proofs.Top Properties.Example Model.Analyses Model.Emit Model.SEmit Model.Exec Proofs.SEmitFile.
 
 (** Parse returns nil exactly when the entry rule matched (C01).  On failure the error's token is the
     first, in time order, of the non-empty tokens completed during the attempt (failed branches and
@@ -13,6 +13,17 @@ Theorem C11_error_token :
       maxtok st' = first_furthest evs /\ tok_ok (length buf) (maxtok st').
 Proof. exact c11_error_token. Qed.
 Print Assumptions C11_error_token.
+
+(** ... and so for the error token the statements of the generated file leave (Model/SEmit.v, Model/Exec.v, see C01) *)
+Theorem C11_generated_code_error_token :
+  forall g ptx buf penv, good_grammar g -> good_buf buf -> good_switches g ->
+  forall memo inline n r st0 evs,
+    deep_table_b g inline = true -> slot_ok g inline r -> reached (count_rules g) r = true ->
+    peg_parse g ptx buf penv (S n) r = Some (Fail, evs) ->
+    forall res, xcall buf penv (mk_opts true memo inline g) (gen_fn g ptx inline) r (reset st0) res ->
+      exists st', res = Ret false st' /\ maxtok st' = first_furthest evs /\ tok_ok (length buf) (maxtok st').
+Proof. exact generated_code_error_token. Qed.
+Print Assumptions C11_generated_code_error_token.
 
 (** For every rune list and every token with begin <= end <= number of runes (in particular the error
     token, by the theorem above; also the empty input, offset 0 and end of input), the message fields
